@@ -59,6 +59,33 @@ Proof.
   induction l as [|a [|b r] IH]; cbn [linked]; auto. intros [H1 H2] [H3 H4]. split; [split; assumption|]. apply IH; assumption.
 Qed.
 
+Lemma num_ext_filter e dir : (e < 256)%N ->
+  (e_num_ext_dir e dir = 1%N <-> length (filter (e_has_ext e dir) bases4) = 1).
+Proof.
+  intro He.
+  assert (E : forallb (fun e => forallb (fun dir =>
+     Bool.eqb (e_num_ext_dir e dir =? 1)%N (Nat.eqb (length (filter (e_has_ext e dir) bases4)) 1)) bools) all_exts = true)
+    by (vm_compute; reflexivity).
+  rewrite forallb_forall in E. specialize (E e (in_all_exts e He)).
+  rewrite forallb_forall in E. specialize (E dir (in_bools dir)). apply eqb_prop in E.
+  rewrite <- N.eqb_eq, <- Nat.eqb_eq, E. reflexivity.
+Qed.
+Lemma filter_single e dir b : (e < 256)%N -> e_num_ext_dir e dir = 1%N -> (b < 4)%N -> e_has_ext e dir b = true ->
+  filter (e_has_ext e dir) bases4 = [b].
+Proof.
+  intros He Hn Hb Hh. apply (num_ext_filter e dir He) in Hn.
+  assert (Hin : In b (filter (e_has_ext e dir) bases4)) by (apply filter_In; split; [now apply in_bases4 | exact Hh]).
+  destruct (filter (e_has_ext e dir) bases4) as [|c [|? ?]]; try discriminate. destruct Hin as [->|[]]. reflexivity.
+Qed.
+Lemma in_combine_tl_nth {A} (l : list A) d x y : In (x, y) (combine l (tl l)) ->
+  exists i, S i < length l /\ x = nth i l d /\ y = nth (S i) l d.
+Proof.
+  induction l as [|a [|b r] IH]; cbn [tl combine]; intro H; try (destruct H; fail).
+  destruct H as [H|H].
+  - injection H as <- <-. exists 0. cbn. split; [lia | auto].
+  - destruct (IH H) as (i & Hi & E1 & E2). exists (S i). cbn [length] in *. split; [lia|]. auto.
+Qed.
+
 Section Graph.
 Variable K : nat.
 Variable st : bool.
@@ -233,4 +260,118 @@ Qed.
 
 Theorem graph_links_iff w : In w (graph_links K st g) <-> In w LS.
 Proof. split; [apply graph_links_sound | apply graph_links_complete]. Qed.
+
+(* ---- the merge predicate of Check/PipelineCheck.v over the graph's own link set, in terms of the table ---- *)
+Local Notation L := (graph_links K st g).
+Local Notation kj := (kjoin_f mode colf).
+
+Lemma has_link_iff v : has_link st L v = true <-> In (cn st v) LS.
+Proof. unfold has_link. rewrite existsb_dna_in. apply graph_links_iff. Qed.
+Lemma rlinks_np x e : wf_dna x -> oexts x = Some e -> kpal st x = false -> rlinks st L x = filter (e_has_ext e true) bases4.
+Proof.
+  intros W He P. unfold rlinks. apply filter_ext_in. intros b Hb. apply eq_true_iff_eq. rewrite has_link_iff.
+  symmetry. exact (frame_iff pay K st HK T LS Hok HL x e DRight b W (in_bases4_lt b Hb) He P).
+Qed.
+Lemma llinks_np x e : wf_dna x -> oexts x = Some e -> kpal st x = false -> llinks st L x = filter (e_has_ext e false) bases4.
+Proof.
+  intros W He P. unfold llinks. apply filter_ext_in. intros b Hb. apply eq_true_iff_eq. rewrite has_link_iff.
+  symmetry. exact (frame_iff pay K st HK T LS Hok HL x e DLeft b W (in_bases4_lt b Hb) He P).
+Qed.
+Lemma join_kj a b : In a T -> In b T -> join (e_data pay a) (e_data pay b) = kj (e_key pay a) (e_key pay b).
+Proof.
+  intros Ha Hb. rewrite (Hdata a Ha), (Hdata b Hb). unfold pay_join, kjoin_f. cbn [fst]. destruct (mode =? 0)%N; reflexivity.
+Qed.
+
+(* a merge, in the frame of x: y is the sole right neighbour of x, x the sole left neighbour of y *)
+Definition fm (x y : dna) : Prop :=
+  wf_dna x /\ length x = K /\ kpal st x = false /\ kpal st y = false /\ cn st x <> cn st y /\
+  exists b ex ey, (b < 4)%N /\ y = extend x b DRight /\ oexts x = Some ex /\ oexts y = Some ey /\
+    e_num_ext_dir ex true = 1%N /\ e_num_ext_dir ey false = 1%N /\
+    e_has_ext ex true b = true /\ e_has_ext ey false (hd 0%N x) = true.
+
+Lemma fm_wf_y x y : fm x y -> wf_dna y /\ length y = K /\ x <> [] /\ y <> [].
+Proof.
+  intros (W & Lx & _ & _ & _ & b & ex & ey & Hb & -> & _).
+  assert (Nx : x <> []) by (intro E; rewrite E in Lx; cbn in Lx; lia).
+  assert (Ly : length (extend x b DRight) = K) by (rewrite KmerAlgebra.extend_length by exact Nx; exact Lx).
+  repeat split; auto.
+  - now apply extend_wf.
+  - intro E. rewrite E in Ly. cbn in Ly. lia.
+Qed.
+
+Lemma merge_intro x y : fm x y -> kj (cn st x) (cn st y) = true -> mergeableb st kj L x y = true.
+Proof.
+  intros Hfm Hj. destruct (fm_wf_y x y Hfm) as (Wy & Ly & Nx & Ny).
+  destruct Hfm as (W & Lx & Px & Py & Hne & b & ex & ey & Hb & Ey & Hx & Hy & Nxx & Nyy & Hhx & Hhy).
+  unfold mergeableb. rewrite (rlinks_np x ex W Hx Px), (llinks_np y ey Wy Hy Py).
+  rewrite (filter_single ex true b (oexts_lt_ _ _ Hx) Nxx Hb Hhx).
+  assert (Hc4 : (hd 0 x < 4)%N) by (apply wf_hd; auto).
+  rewrite (filter_single ey false (hd 0%N x) (oexts_lt_ _ _ Hy) Nyy Hc4 Hhy).
+  rewrite Hj, N.eqb_refl. change (palb st x) with (kpal st x). change (palb st y) with (kpal st y). rewrite Px, Py.
+  replace (dna_eqb y (tl x ++ [b])) with true by (symmetry; apply dna_eqb_eq; exact Ey).
+  replace (dna_eqb (cn st x) (cn st y)) with false by (symmetry; now apply dna_eqb_neq). reflexivity.
+Qed.
+
+Lemma merge_elim x y : wf_dna x -> length x = K -> In (ck x) (keys pay T) -> mergeableb st kj L x y = true ->
+  fm x y /\ kj (cn st x) (cn st y) = true.
+Proof.
+  intros W Lx Hk Hm. unfold mergeableb in Hm.
+  destruct (rlinks st L x) as [|b [|? ?]] eqn:Er; try discriminate.
+  destruct (llinks st L y) as [|c [|? ?]] eqn:El; try discriminate.
+  repeat (apply andb_true_iff in Hm as [Hm ?]).
+  apply dna_eqb_eq in Hm. apply N.eqb_eq in H3. apply negb_true_iff in H2, H1, H0.
+  change (palb st x) with (kpal st x) in H2. change (palb st y) with (kpal st y) in H1. apply dna_eqb_neq in H0.
+  destruct (oexts_of_key pay K st T Hok x W Hk) as [ex Hx].
+  rewrite (rlinks_np x ex W Hx H2) in Er.
+  assert (Hbin : In b (filter (e_has_ext ex true) bases4)) by (rewrite Er; now left).
+  apply filter_In in Hbin as [Hb4 Hhx]. apply in_bases4_lt in Hb4.
+  assert (Nxx : e_num_ext_dir ex true = 1%N) by (apply (num_ext_filter ex true (oexts_lt_ _ _ Hx)); now rewrite Er).
+  assert (Ey : y = extend x b DRight) by exact Hm.
+  assert (Wy : wf_dna y) by (rewrite Ey; now apply extend_wf).
+  pose proof (link_closed pay K st HK T LS Hok HL x ex DRight b W Lx Hb4 Hx Hhx) as Hky. rewrite <- Ey in Hky.
+  destruct (oexts_of_key pay K st T Hok y Wy Hky) as [ey Hy].
+  rewrite (llinks_np y ey Wy Hy H1) in El.
+  assert (Hcin : In c (filter (e_has_ext ey false) bases4)) by (rewrite El; now left).
+  apply filter_In in Hcin as [_ Hhy]. subst c.
+  assert (Nyy : e_num_ext_dir ey false = 1%N) by (apply (num_ext_filter ey false (oexts_lt_ _ _ Hy)); now rewrite El).
+  split; [|assumption]. repeat split; auto. exists b, ex, ey. repeat split; auto.
+Qed.
+
+(* ---- positions inside a node ---- *)
+Lemma node_kmers_nodup n : In n g -> NoDup (map (cn st) (kmers K (nd_seq n))).
+Proof. intro Hn. exact (flat_map_nodup_elem (node_kmers K st) g n graph_kmers_nodup Hn). Qed.
+Lemma win_inj n p q : In n g -> p + K <= length (nd_seq n) -> q + K <= length (nd_seq n) ->
+  cn st (kmer_at K (nd_seq n) p) = cn st (kmer_at K (nd_seq n) q) -> p = q.
+Proof.
+  intros Hn Hp Hq E. pose proof (node_kmers_nodup n Hn) as Hnd.
+  apply (proj1 (NoDup_nth _ (cn st [])) Hnd); try (rewrite map_length, kmers_len; lia).
+  rewrite !map_nth, !kmers_nth by lia. exact E.
+Qed.
+Lemma in_kmers_at K0 (s : dna) p : p + K0 <= length s -> In (kmer_at K0 s p) (kmers K0 s).
+Proof. intro H. unfold kmers. apply in_map_iff. exists p. split; [reflexivity|]. apply in_seq. lia. Qed.
+
+(* every step inside a node is a merge *)
+Lemma inner_fm n p : In n g -> p + S K <= length (nd_seq n) ->
+  fm (kmer_at K (nd_seq n) p) (kmer_at K (nd_seq n) (S p)) /\
+  kj (cn st (kmer_at K (nd_seq n) p)) (cn st (kmer_at K (nd_seq n) (S p))) = true.
+Proof.
+  intros Hn Hp. destruct (node_len_wf n Hn) as [L W].
+  destruct (node_step n p Hn Hp) as [(ex & ey & Hx & Hy & Hhx & Hhy) (ex' & ey' & entx & enty & Hx' & Hy' & Gx & Gy & Nx & Ny & Px & Py & Hj)].
+  rewrite Hx in Hx'. injection Hx' as <-. rewrite Hy in Hy'. injection Hy' as <-.
+  destruct (node_win_ok n p Hn ltac:(lia)) as (Lx & Wx & _).
+  rewrite kmer_at_last in Hhx by lia. replace (S p + K - 1) with (p + K) in Hhx by lia.
+  split.
+  - repeat split; auto.
+    + intro E. apply (win_inj n p (S p) Hn) in E; lia.
+    + exists (nth (p + K) (nd_seq n) 0%N), ex, ey. repeat split; auto using wf_nth_. now apply kmer_at_next.
+  - destruct (get_entry_Some pay T _ _ Gx) as [Hinx Hkx]. destruct (get_entry_Some pay T _ _ Gy) as [Hiny Hky].
+    rewrite (join_kj entx enty Hinx Hiny), Hkx, Hky in Hj. exact Hj.
+Qed.
+
+Theorem graph_unbranched : unbranched K st kj L g.
+Proof.
+  intros n [x y] Hn Hp. cbn [fst snd]. unfold inner_pairs in Hp.
+  apply (in_combine_tl_nth _ []) in Hp as (i & Hi & -> & ->). rewrite kmers_len in Hi.
+  rewrite !kmers_nth by lia. destruct (inner_fm n i Hn ltac:(lia)) as [Hfm Hj]. now apply merge_intro.
+Qed.
 End Graph.
